@@ -192,6 +192,22 @@ class GaussTilt(GaussRamp):
         return np.where(inside, lp, -np.inf)
 
 
+class GaussZeros(Gauss):
+    """`new_point` allocates its array with zeros (as user-written / bilby-style models do) instead
+    of nessai's NaN placeholders: logP and logL of a fresh point are 0.0 until nessai fills them."""
+
+    def new_point(self, N=1):
+        from nessai.livepoint import get_dtype
+
+        x = np.zeros(N, dtype=get_dtype(self.names))
+        for n in self.names:
+            x[n] = np.random.uniform(self._lo, self._hi, N)
+        return x
+
+    def new_point_log_prob(self, x):
+        return self.log_prior(x)
+
+
 class GaussEdge(Gauss):
     """Bounds of large magnitude ([99, 100]^d) with the likelihood peaked exactly on the upper
     corner: a trained flow proposes points a hair beyond the bounds (tolerances relative to the
@@ -315,6 +331,8 @@ def make(name="G2", **kw):
         return GaussBA(**kw)
     if name == "G2tilt":
         return GaussTilt(2, **kw)
+    if name == "G2zeros":
+        return GaussZeros(2, **kw)
     if name == "G2edge":
         return GaussEdge(2, **kw)
     if name == "G2open":
